@@ -318,3 +318,88 @@ CONTRACTS['breadthdist'] = Contract(
              ('reachability-flag-is-true-exactly-for-finite-distances', _PAIR % "iff(result(0)[a, b], result(1)[a, b] != INF)"),
              ('argument-untouched', "unchanged('CIJ')")])
 CONTRACTS['breadthdist'].callees = {'breadth': _callee_breadth}
+
+
+# ---- reachdist (C03): reachability and distance by accumulated matrix powers, with a RECURSIVE nested helper ------------------------------
+# reachdist2 calls itself; it is verified against its own contract (modular recursion, partial correctness): at the recursive call the
+# requires are obligations and the ensures are assumed.  Invariant carried by the contract: after accumulating the powers 1..p
+#   R[x,y] != 0  <->  1 <= sdist(x,y) <= p        D[x,y] == p - sdist(x,y) + 1 if 1 <= sdist(x,y) <= p else 0
+# so that `powr - D + 1` is the distance for reached pairs and powr + 1 (== n + 2 at the depth limit) for the others.
+_RC = "forall(lambda x, y: implies(And(inr(x, n0), inr(y, n0)), %s))"
+_R2_REQ = [
+    ('binary-network', _RC % "Or(CIJ[x, y] == 0, CIJ[x, y] == 1)"),
+    ('sizes', "And(n == n0, n0 >= 1, powr >= 2, powr <= n0 + 1, INF > n0 + 2)"),
+    ('CIJpwr-nonnegative', _RC % "CIJpwr[x, y] >= 0"),
+    ('CIJpwr-nonzero-only-for-walks-of-the-previous-length', "forall(lambda x, y: implies(And(inr(x, n0), inr(y, n0), CIJpwr[x, y] != 0), walk(CIJ, x, y, powr - 1)), pattern=CIJpwr[x, y])"),
+    ('CIJpwr-nonzero-for-every-walk-of-the-previous-length', "forall(lambda x, y: implies(And(inr(x, n0), inr(y, n0), walk(CIJ, x, y, powr - 1)), CIJpwr[x, y] != 0), pattern=walk(CIJ, x, y, powr - 1))"),
+    ('R-marks-the-pairs-within-the-previous-powers', _RC % "iff(R[x, y] != 0, And(sdist(CIJ, x, y) >= 1, sdist(CIJ, x, y) <= powr - 1))"),
+    ('D-counts-the-powers-at-which-the-pair-was-reachable', _RC % "D[x, y] == (powr - sdist(CIJ, x, y) if And(sdist(CIJ, x, y) >= 1, sdist(CIJ, x, y) <= powr - 1) else 0)"),
+    ('index-vectors-in-range', "And(forall(lambda t: implies(And(t >= 0, t < len(row)), inr(row[t], n0))), forall(lambda t: implies(And(t >= 0, t < len(col)), inr(col[t], n0))))"),
+]
+_R2_ENS = [
+    ('depth', "And(result(2) >= powr, result(2) <= n0 + 1)"),
+    ('R-marks-the-pairs-within-the-accumulated-powers', _RC % "iff(result(0)[x, y], And(sdist(CIJ, x, y) >= 1, sdist(CIJ, x, y) <= result(2)))"),
+    ('D-counts-the-powers-at-which-the-pair-was-reachable', _RC % "result(1)[x, y] == (result(2) - sdist(CIJ, x, y) + 1 if And(sdist(CIJ, x, y) >= 1, sdist(CIJ, x, y) <= result(2)) else 0)"),
+    ('stops-at-the-depth-limit-or-when-every-selected-pair-is-reached',
+     "Or(result(2) > n0, forall(lambda t, u: implies(And(t >= 0, t < len(row), u >= 0, u < len(col)), result(0)[row[t], col[u]])))"),
+]
+
+
+def _setup_r2(eng, st):
+    n = z3.Int('n0c')
+    st.pc.append(n >= 1)
+    st.ghost['n0'] = n
+    for nm in ('CIJ', 'CIJpwr', 'R', 'D'):
+        st.env[nm] = alloc(st, 2, z3.Const(nm + '_in', A2R), (n, n), REAL)
+    st.env['n'] = z3.Int('n_arg')
+    st.env['powr'] = z3.Int('pm') + 1          # powr = pm + 1: the walk lemmas are triggered by lengths of the syntactic form m + 1
+    st.env['col'] = alloc(st, 1, z3.Const('col_in', A1I), (z3.Int('kc'),), INT)
+    st.env['row'] = alloc(st, 1, z3.Const('row_in', A1I), (z3.Int('kr'),), INT)
+    st.pc += [z3.Int('kc') >= 0, z3.Int('kr') >= 0]
+
+
+def _r2_callee():
+    from engine.pyvc.run import callee_from_clauses
+    return callee_from_clauses('reachdist2', ['CIJ', 'CIJpwr', 'R', 'D', 'n', 'powr', 'col', 'row'], _R2_REQ, _R2_ENS,
+                               [('bmat', 'n', 'n'), ('mat', 'n', 'n'), ('int',)], ghosts={'n0': 'n'})
+
+
+CONTRACTS['reachdist.reachdist2'] = Contract(
+    MOD, 'reachdist.reachdist2', ['CIJ', 'CIJpwr', 'R', 'D', 'n', 'powr', 'col', 'row'], setup=_setup_r2, dot_support=True, key='reachdist.reachdist2',
+    requires=_R2_REQ, ensures=_R2_ENS,
+    ghost_before={'CIJpwr = np.dot(*': "assume(lemma_walks(CIJ, n0))"},
+    ghost_after={'CIJpwr = np.dot(*': "check('new-power-nonzero-only-for-walks', forall(lambda x, y: implies(And(inr(x, n0), inr(y, n0), CIJpwr[x, y] != 0), walk(CIJ, x, y, powr)), pattern=CIJpwr[x, y])); "
+                                                 "check('new-power-nonzero-for-every-walk', forall(lambda x, y: implies(And(inr(x, n0), inr(y, n0), walk(CIJ, x, y, powr)), CIJpwr[x, y] != 0), pattern=walk(CIJ, x, y, powr)))",
+                 'R = *': "check('R-marks-the-pairs-within-powr', " + (_RC % "iff(R[x, y], And(sdist(CIJ, x, y) >= 1, sdist(CIJ, x, y) <= powr))") + ")",
+                 'D += *': "check('D-counts-up-to-powr', " + (_RC % "D[x, y] == (powr - sdist(CIJ, x, y) + 1 if And(sdist(CIJ, x, y) >= 1, sdist(CIJ, x, y) <= powr) else 0)") + ")"})
+CONTRACTS['reachdist.reachdist2'].callees = {'reachdist2': _r2_callee()}
+
+
+def _setup_rd(eng, st):
+    n = z3.Int('n0c')
+    st.pc.append(n >= 1)
+    st.ghost['n0'] = n
+    st.env['CIJ'] = alloc(st, 2, z3.Const('C0', A2R), (n, n), REAL)
+    st.env['ensure_binary'] = True
+
+
+CONTRACTS['reachdist'] = Contract(
+    MOD, 'reachdist', ['CIJ', 'ensure_binary'], setup=_setup_rd,
+    requires=[('infinity-exceeds-any-hop-count', 'INF > n0 + 2')],
+    ghost_after={'n = len(CIJ)': "assume(lemma_walks(CIJ, n0), lemma_nonneg_sum_zero(CIJ, n0), lemma_walk_ends(CIJ, n0)); "
+                                 "check('connections-are-walks-of-one-connection', " + (_RC % "implies(CIJ[x, y] != 0, walk(CIJ, x, y, 1))") + "); "
+                                 "check('walks-of-one-connection-are-shortest', forall(lambda x, y: implies(And(inr(x, n0), inr(y, n0), walk(CIJ, x, y, 1)), sdist(CIJ, x, y) == 1), pattern=walk(CIJ, x, y, 1))); "
+                                 "check('distance-one-means-connected', " + (_RC % "implies(sdist(CIJ, x, y) == 1, CIJ[x, y] != 0)") + ")"},
+    ghost_before={'D = powr*': "check('a-node-without-outgoing-connections-reaches-nothing', forall(lambda x, y: implies(And(inr(x, n0), inr(y, n0), od[x] == 0), sdist(CIJ, x, y) == 0))); "
+                                      "check('a-node-without-incoming-connections-is-reached-by-nothing', forall(lambda x, y: implies(And(inr(x, n0), inr(y, n0), id[y] == 0), sdist(CIJ, x, y) == 0))); "
+                                      "check('every-node-with-an-outgoing-connection-is-selected', forall(lambda x: implies(And(inr(x, n0), od[x] != 0), And(where_index1(row, x) >= 0, where_index1(row, x) < len(row), row[where_index1(row, x)] == x)))); "
+                                      "check('every-node-with-an-incoming-connection-is-selected', forall(lambda y: implies(And(inr(y, n0), id[y] != 0), And(where_index1(col, y) >= 0, where_index1(col, y) < len(col), col[where_index1(col, y)] == y)))); "
+                                      "check('every-reachable-pair-is-within-the-accumulated-powers', " + (_PAIR % "implies(sdist(CIJ, a, b) >= 1, sdist(CIJ, a, b) <= powr)") + ")",
+                  'return (R, D)': "check('a-node-without-outgoing-connections-reaches-nothing-2', forall(lambda x, y: implies(And(inr(x, n0), inr(y, n0), od[x] == 0), sdist(CIJ, x, y) == 0))); "
+                                   "check('a-node-without-incoming-connections-is-reached-by-nothing', forall(lambda x, y: implies(And(inr(x, n0), inr(y, n0), id[y] == 0), sdist(CIJ, x, y) == 0)))"},
+    ensures=[('network-is-the-binarised-argument', "forall(lambda x, y: implies(And(inr(x, n0), inr(y, n0)), CIJ[x, y] == (1 if arg('CIJ')[x, y] != 0 else 0)))"),
+             ('distance-is-the-shortest-path-length', _PAIR % "implies(sdist(CIJ, a, b) >= 1, result(1)[a, b] == sdist(CIJ, a, b))"),
+             ('infinite-exactly-when-unreachable', _PAIR % "iff(sdist(CIJ, a, b) == 0, result(1)[a, b] == INF)"),
+             ('reachability-flag-is-true-exactly-for-finite-distances', _PAIR % "iff(result(0)[a, b], result(1)[a, b] != INF)"),
+             ('argument-untouched', "unchanged('CIJ')")])
+CONTRACTS['reachdist'].callees = {'reachdist2': _r2_callee()}
